@@ -8,20 +8,22 @@
   Obligations on the translator's facts: `cfg_good` breaks when `boot_time()` rewrites `BOOT_TIME` (lead L2), when
   `BOOT_TIME` is stored anywhere else in the package (fact `bootStoresElsewhere`), or when the value `create_time()`
   RETURNS stops coming from the cached `BOOT_TIME` (fact `createBoot`: a dead `BOOT_TIME or boot_time()` expression does
-  not count); `cfg_identity_shape` pins `__eq__` / `__ne__` / `__hash__` and every store to `_ident`, `_hash`, `_gone`,
-  `_pid_reused`, `_create_time`.
+  not count); `cfg_none_test` breaks when `create_time()` goes back to testing the cached value by truthiness
+  (`BOOT_TIME or boot_time()`, the defect repaired by /repo 29257b1); `cfg_identity_shape` pins `__eq__` / `__ne__` /
+  `__hash__` and every store to `_ident`, `_hash`, `_gone`, `_pid_reused`, `_create_time`.
 
-  Histories: any list of kernel events (spawn / exit / reap / tick / **clock step**) and psutil calls
-  (Process(pid) at any point, is_running, signals, setters, ppid, **boot_time()**, create_time, ==,
+  Histories: any list of kernel events (spawn / exit / reap / tick / **clock step to ANY value, 0 included**) and psutil
+  calls (Process(pid) at any point, is_running, signals, setters, ppid, **boot_time()**, create_time, ==,
   hash, process_iter, oneshot() entry/exit, str), plus permission changes (the kernel refusing a PID with
-  EPERM / EACCES).  Hypotheses (`HistOK nt`, `BtOK nt b0`, with `nt = cfg.createNoneTest`):
+  EPERM / EACCES), from ANY initial published boot time `b0` (0 included).  The only hypothesis is `HistOK true h`:
   * `/proc/pid/stat` can always be opened (no `hide p true`) and no PID is recycled within one clock tick (no
     `spawnSameTick`: psutil's documented assumption) — what `==` / `is_running()` answer with unreadable stat files is
-    characterised at the end of the file;
-  * the published boot time is never 0 — ONLY while `create_time()` tests the cached value by truthiness
-    (`nt = false`, the source as found).  C02 is FALSE without it there (finding `C02-boottime-zero`,
-    `C02_btime0_counterexample`); with `BOOT_TIME is not None` (`nt = true`, fixes/C02-boottime-zero.diff) the
-    hypothesis is void (`BtOK true b` is `True`) and `C02_any_boot_full_of_none_test` holds for every boot time.
+    characterised at the end of the file.
+  NO hypothesis on the boot time: `HistOK`'s index is the `createNoneTest` flag, and `HistOK true` / `BtOK true b` put no
+  restriction on `setBtime` / `b` (Proofs/C01.lean).  The helper lemmas are indexed by `cfg.createNoneTest`; the theorems
+  here discharge that with `cfg_none_test`.  For a configuration that tests truthiness the restriction "never 0" is
+  needed and the property is false without it (`C02_btime0_counterexample` — a what-if theorem about `cfgTruthy`, the
+  source before 29257b1; `C02_btime0_as_extracted` says the checked source is not that one).
 
   What is promised about `hash()`: equal objects hash alike (`C02_hash_congr`) and an object's hash never changes
   (`C02_answers_stable`).  The CONVERSE ("hash alike ⇒ same process") is NOT a clause: no hash function can
@@ -46,6 +48,13 @@ open Psutil.C01 Psutil.C01.Spec
 /-- `BOOT_TIME` is written once — under `if BOOT_TIME is None` inside `boot_time()`, and nowhere else in the package —
     and the boot time that flows into `create_time()`'s result is the cached one whenever there is one -/
 theorem cfg_good : cfg.BootGood := ⟨by decide, by decide⟩
+
+/-- **cfg_none_test** (obligation, in force since /repo 29257b1 = fixes/C02-boottime-zero.diff): `create_time()` decides
+    "there is a cached boot time" by `BOOT_TIME is not None` (fact `createBoot = "isNotNone"`), NOT by truthiness.  Every
+    theorem below that speaks about histories rests on it: that is what lets them hold for EVERY boot time, 0 included,
+    and for every clock step.  It stops building when the test goes back to `BOOT_TIME or boot_time()` — the defect of
+    the former finding `C02-boottime-zero` (`C02_btime0_counterexample`). -/
+theorem cfg_none_test : cfg.createNoneTest = true := by decide
 
 /-- **cfg_identity_shape** (obligation on the source of `__eq__` / `__ne__` / `__hash__` and on every store to the
     attributes identity rests on; the model's `Call.eq` compares `_ident`, `Call.hash` returns a function of `_ident`
@@ -97,28 +106,28 @@ theorem C02_ghost_meaning (s : St) (pid : Int) (i : Nat)
 
 /-- **C02_eq_iff_same_incarnation.** After any history, for any two objects (built at any two points of
     it): `a == b` is True exactly when they have the same PID and were built for the same process start. -/
-theorem C02_eq_iff_same_incarnation (b0 : Nat) (hb0 : BtOK cfg.createNoneTest b0) (h : List Ev) (hh : HistOK cfg.createNoneTest h)
+theorem C02_eq_iff_same_incarnation (b0 : Nat) (h : List Ev) (hh : HistOK true h)
     (i j : Nat) (a b : PObj)
     (ha : (run cfg (St.init b0) h).ps.objs[i]? = some a) (hb : (run cfg (St.init b0) h).ps.objs[j]? = some b) :
     (step cfg (run cfg (St.init b0) h) (.c (.eq i j))).2 = .bool (decide (SameIncarnation a b)) :=
-  eq_iff_same_gen cfg_good b0 hb0 h hh i j a b ha hb
+  eq_iff_same_gen cfg_good b0 (BtOK.of_none_test cfg_none_test b0) h (HistOK.of_none_test cfg_none_test hh) i j a b ha hb
 
 /-- **C02_hash_congr.** Equal objects hash alike.  (One direction only: this and the stability half of
     `C02_answers_stable` are everything C02 promises about `hash()`; see the header for the converse.) -/
-theorem C02_hash_congr (b0 : Nat) (hb0 : BtOK cfg.createNoneTest b0) (h : List Ev) (hh : HistOK cfg.createNoneTest h)
+theorem C02_hash_congr (b0 : Nat) (h : List Ev) (hh : HistOK true h)
     (i j : Nat) (a b : PObj)
     (ha : (run cfg (St.init b0) h).ps.objs[i]? = some a) (hb : (run cfg (St.init b0) h).ps.objs[j]? = some b)
     (hsame : SameIncarnation a b) :
     (step cfg (run cfg (St.init b0) h) (.c (.hash i))).2 = (step cfg (run cfg (St.init b0) h) (.c (.hash j))).2 :=
-  hash_congr_gen cfg_good b0 hb0 h hh i j a b ha hb hsame
+  hash_congr_gen cfg_good b0 (BtOK.of_none_test cfg_none_test b0) h (HistOK.of_none_test cfg_none_test hh) i j a b ha hb hsame
 
 /-- **C02_isRunning_iff_listed.** After any history, `is_running()` is True exactly when the incarnation the
     object was built for is still in the process table (a zombie is still listed), False otherwise —
     including when the PID is alive again under another process. -/
-theorem C02_isRunning_iff_listed (b0 : Nat) (hb0 : BtOK cfg.createNoneTest b0) (h : List Ev) (hh : HistOK cfg.createNoneTest h) (i : Nat) (o : PObj)
+theorem C02_isRunning_iff_listed (b0 : Nat) (h : List Ev) (hh : HistOK true h) (i : Nat) (o : PObj)
     (ho : (run cfg (St.init b0) h).ps.objs[i]? = some o) :
     (step cfg (run cfg (St.init b0) h) (.c (.isRunning i))).2 = .bool (listedB (run cfg (St.init b0) h).kern o) :=
-  isRunning_iff_listed_gen cfg_good b0 hb0 h hh i o ho
+  isRunning_iff_listed_gen cfg_good b0 (BtOK.of_none_test cfg_none_test b0) h (HistOK.of_none_test cfg_none_test hh) i o ho
 
 /-- a zombie is still listed: `exit` alone never changes any `is_running()` answer's specification -/
 theorem C02_zombie_still_listed (k : Kernel) (o : PObj) (pid : Nat) :
@@ -136,22 +145,22 @@ theorem C02_zombie_still_listed (k : Kernel) (o : PObj) (pid : Nat) :
 
 /-- **C02_isRunning_sticky.** Once the object's incarnation has left the table, `is_running()` is False after
     every continuation of the history — PID reuse, clock steps, `boot_time()` and any other call included. -/
-theorem C02_isRunning_sticky (b0 : Nat) (hb0 : BtOK cfg.createNoneTest b0) (h : List Ev) (hh : HistOK cfg.createNoneTest h) (i : Nat) (o : PObj)
+theorem C02_isRunning_sticky (b0 : Nat) (h : List Ev) (hh : HistOK true h) (i : Nat) (o : PObj)
     (ho : (run cfg (St.init b0) h).ps.objs[i]? = some o)
-    (hgone : ¬ Listed (run cfg (St.init b0) h).kern o) (h2 : List Ev) (hh2 : HistOK cfg.createNoneTest h2) :
+    (hgone : ¬ Listed (run cfg (St.init b0) h).kern o) (h2 : List Ev) (hh2 : HistOK true h2) :
     (step cfg (run cfg (run cfg (St.init b0) h) h2) (.c (.isRunning i))).2 = .bool false :=
-  isRunning_sticky_gen cfg_good b0 hb0 h hh i o ho hgone h2 hh2
+  isRunning_sticky_gen cfg_good b0 (BtOK.of_none_test cfg_none_test b0) h (HistOK.of_none_test cfg_none_test hh) i o ho hgone h2 (HistOK.of_none_test cfg_none_test hh2)
 
 /-- the answer given by `is_running()` itself is sticky: after it returned False once, it returns False
     ever after -/
-theorem C02_isRunning_false_forever (b0 : Nat) (hb0 : BtOK cfg.createNoneTest b0) (h : List Ev) (hh : HistOK cfg.createNoneTest h) (i : Nat)
+theorem C02_isRunning_false_forever (b0 : Nat) (h : List Ev) (hh : HistOK true h) (i : Nat)
     (hfalse : (step cfg (run cfg (St.init b0) h) (.c (.isRunning i))).2 = .bool false)
-    (h2 : List Ev) (hh2 : HistOK cfg.createNoneTest h2) :
+    (h2 : List Ev) (hh2 : HistOK true h2) :
     (step cfg (run cfg (St.init b0) (h ++ .c (.isRunning i) :: h2)) (.c (.isRunning i))).2 = .bool false := by
   cases ho : (run cfg (St.init b0) h).ps.objs[i]? with
   | none => rw [step_bad_index cfg _ (call := .isRunning i) rfl ho] at hfalse; cases hfalse
   | some o =>
-    rw [C02_isRunning_iff_listed b0 hb0 h hh i o ho] at hfalse
+    rw [C02_isRunning_iff_listed b0 h hh i o ho] at hfalse
     have hgone : ¬ Listed (run cfg (St.init b0) h).kern o := by
       rw [← listedB_iff]; simp only [Out.bool.injEq] at hfalse; simp [hfalse]
     have hrun : ∀ (l1 l2 : List Ev) (s : St), run cfg s (l1 ++ l2) = run cfg (run cfg s l1) l2 := by
@@ -159,7 +168,7 @@ theorem C02_isRunning_false_forever (b0 : Nat) (hb0 : BtOK cfg.createNoneTest b0
       | nil => intro l2 s; rfl
       | cons e es ih => intro l2 s; exact ih l2 _
     rw [hrun]
-    exact C02_isRunning_sticky b0 hb0 h hh i o ho hgone (.c (.isRunning i) :: h2)
+    exact C02_isRunning_sticky b0 h hh i o ho hgone (.c (.isRunning i) :: h2)
       (fun e he => by
         rcases List.mem_cons.1 he with rfl | he
         · trivial
@@ -168,44 +177,45 @@ theorem C02_isRunning_false_forever (b0 : Nat) (hb0 : BtOK cfg.createNoneTest b0
 /-- **C02_answers_stable.** `==` and `hash()` of existing objects are not affected by anything that happens
     later (clock steps, `boot_time()`, exits, PID reuse, new objects, any call): the identity an object
     was given at construction is never recomputed. -/
-theorem C02_answers_stable (b0 : Nat) (hb0 : BtOK cfg.createNoneTest b0) (h : List Ev) (hh : HistOK cfg.createNoneTest h) (i j : Nat) (a b : PObj)
+theorem C02_answers_stable (b0 : Nat) (h : List Ev) (hh : HistOK true h) (i j : Nat) (a b : PObj)
     (ha : (run cfg (St.init b0) h).ps.objs[i]? = some a) (hb : (run cfg (St.init b0) h).ps.objs[j]? = some b)
-    (h2 : List Ev) (hh2 : HistOK cfg.createNoneTest h2) :
+    (h2 : List Ev) (hh2 : HistOK true h2) :
     (step cfg (run cfg (run cfg (St.init b0) h) h2) (.c (.eq i j))).2
         = (step cfg (run cfg (St.init b0) h) (.c (.eq i j))).2
     ∧ (step cfg (run cfg (run cfg (St.init b0) h) h2) (.c (.hash i))).2
         = (step cfg (run cfg (St.init b0) h) (.c (.hash i))).2 :=
-  answers_stable_gen cfg_good b0 hb0 h hh i j a b ha hb h2 hh2
+  answers_stable_gen cfg_good b0 (BtOK.of_none_test cfg_none_test b0) h (HistOK.of_none_test cfg_none_test hh) i j a b ha hb h2 (HistOK.of_none_test cfg_none_test hh2)
 
 /-- **C02_object_constant.** What an object IS never changes: after any continuation of the history the object under
     index `i` still has the PID, the process start it was built for (`ghost`) and the `_ident` it had; the sticky
     flags `_gone` / `_pid_reused` are only ever set, never cleared. -/
-theorem C02_object_constant (b0 : Nat) (hb0 : BtOK cfg.createNoneTest b0) (h : List Ev) (hh : HistOK cfg.createNoneTest h)
+theorem C02_object_constant (b0 : Nat) (h : List Ev) (hh : HistOK true h)
     (i : Nat) (o : PObj) (ho : (run cfg (St.init b0) h).ps.objs[i]? = some o)
-    (h2 : List Ev) (hh2 : HistOK cfg.createNoneTest h2) :
+    (h2 : List Ev) (hh2 : HistOK true h2) :
     ∃ o', (run cfg (run cfg (St.init b0) h) h2).ps.objs[i]? = some o' ∧ o'.pid = o.pid ∧ o'.ghost = o.ghost
       ∧ o'.ident = o.ident ∧ (o.gone = true → o'.gone = true) ∧ (o.reused = true → o'.reused = true) := by
-  obtain ⟨o', ho', e⟩ := object_constant_gen cfg_good b0 hb0 h hh i o ho h2 hh2
+  obtain ⟨o', ho', e⟩ := object_constant_gen cfg_good b0 (BtOK.of_none_test cfg_none_test b0) h (HistOK.of_none_test cfg_none_test hh) i o ho h2 (HistOK.of_none_test cfg_none_test hh2)
   exact ⟨o', ho', e.pid, e.ghost, e.ident, e.gone, e.reused⟩
 
 /-- **C02_built_for_owner_at_construction** (the end-to-end reading of "built for the same process start"): an
     object built by `Process(pid)` at ANY point of a history is, after ANY continuation, still an object of that PID
     whose `ghost` — the only thing `SameIncarnation` / `Listed` look at besides the PID — is the start of the
     incarnation that held the PID at the instant of the construction. -/
-theorem C02_built_for_owner_at_construction (b0 : Nat) (hb0 : BtOK cfg.createNoneTest b0) (h : List Ev)
-    (hh : HistOK cfg.createNoneTest h) (pid : Int) (i : Nat)
+theorem C02_built_for_owner_at_construction (b0 : Nat) (h : List Ev)
+    (hh : HistOK true h) (pid : Int) (i : Nat)
     (hnew : (step cfg (run cfg (St.init b0) h) (.c (.newObj pid))).2 = .obj i)
-    (h2 : List Ev) (hh2 : HistOK cfg.createNoneTest h2) :
+    (h2 : List Ev) (hh2 : HistOK true h2) :
     ∃ o, (run cfg (St.init b0) (h ++ .c (.newObj pid) :: h2)).ps.objs[i]? = some o ∧ (o.pid : Int) = pid
       ∧ (run cfg (St.init b0) h).kern.owner o.pid = some o.ghost := by
   obtain ⟨o, ho, hp, hown, _, _⟩ := C02_ghost_meaning (run cfg (St.init b0) h) pid i hnew
-  have hh1 : HistOK cfg.createNoneTest (h ++ [.c (.newObj pid)]) := fun e he => by
+  have hh1 : HistOK true (h ++ [.c (.newObj pid)]) := fun e he => by
     rcases List.mem_append.1 he with he | he
     · exact hh e he
     · rw [List.mem_singleton.1 he]; trivial
   have hrun1 : run cfg (St.init b0) (h ++ [.c (.newObj pid)]) = (step cfg (run cfg (St.init b0) h) (.c (.newObj pid))).1 := by
     rw [run_append]; rfl
-  obtain ⟨o', ho', e⟩ := object_constant_gen cfg_good b0 hb0 (h ++ [.c (.newObj pid)]) hh1 i o (by rw [hrun1]; exact ho) h2 hh2
+  obtain ⟨o', ho', e⟩ := object_constant_gen cfg_good b0 (BtOK.of_none_test cfg_none_test b0) (h ++ [.c (.newObj pid)])
+    (HistOK.of_none_test cfg_none_test hh1) i o (by rw [hrun1]; exact ho) h2 (HistOK.of_none_test cfg_none_test hh2)
   refine ⟨o', ?_, by rw [e.pid]; exact hp, by rw [e.pid, e.ghost]; exact hown⟩
   have : h ++ .c (.newObj pid) :: h2 = (h ++ [.c (.newObj pid)]) ++ h2 := by simp
   rw [this, run_append]; exact ho'
@@ -240,10 +250,10 @@ theorem C02_iter_ghost_meaning (s : St) (l : List (Nat × Nat))
 /-- **C02_iter_handles_valid.** After any history, every handle `(pid, i)` yielded by `process_iter()` names an
     object of the resulting state, and that object's PID is `pid` — so all theorems of this file apply to
     it under index `i`. -/
-theorem C02_iter_handles_valid (b0 : Nat) (hb0 : BtOK cfg.createNoneTest b0) (h : List Ev) (hh : HistOK cfg.createNoneTest h) (l : List (Nat × Nat))
+theorem C02_iter_handles_valid (b0 : Nat) (h : List Ev) (hh : HistOK true h) (l : List (Nat × Nat))
     (hl : (step cfg (run cfg (St.init b0) h) (.c .processIter)).2 = .procs l) :
     ∀ e ∈ l, ∃ o, (step cfg (run cfg (St.init b0) h) (.c .processIter)).1.ps.objs[e.2]? = some o ∧ o.pid = e.1 := by
-  have hinv := run_inv cfg_good h _ hh (init_inv cfg.clk hb0)
+  have hinv := run_inv cfg_good h _ (HistOK.of_none_test cfg_none_test hh) (init_inv cfg.clk (BtOK.of_none_test cfg_none_test b0))
   generalize run cfg (St.init b0) h = s at *
   have hinv' := step_inv cfg_good s (.c .processIter) trivial hinv
   have hpm := (C02_iter_ghost_meaning s l hl).1
@@ -269,12 +279,12 @@ transcription guarantees and characterise what it does not. -/
 
 /-- **C02_status_terminated_sound.** After any history, when `str(p)` says "terminated" (with or without
     "+ PID reused"), the object's incarnation is indeed no longer in the process table. -/
-theorem C02_status_terminated_sound (b0 : Nat) (hb0 : BtOK cfg.createNoneTest b0) (h : List Ev) (hh : HistOK cfg.createNoneTest h) (i : Nat) (o : PObj)
+theorem C02_status_terminated_sound (b0 : Nat) (h : List Ev) (hh : HistOK true h) (i : Nat) (o : PObj)
     (ho : (run cfg (St.init b0) h).ps.objs[i]? = some o)
     (hw : (step cfg (run cfg (St.init b0) h) (.c (.status i))).2 = .status .terminated
         ∨ (step cfg (run cfg (St.init b0) h) (.c (.status i))).2 = .status .reusedTerminated) :
     ¬ Listed (run cfg (St.init b0) h).kern o := by
-  have hinv := run_inv cfg_good h _ hh (init_inv cfg.clk hb0)
+  have hinv := run_inv cfg_good h _ (HistOK.of_none_test cfg_none_test hh) (init_inv cfg.clk (BtOK.of_none_test cfg_none_test b0))
   generalize run cfg (St.init b0) h = s at *
   obtain ⟨B, _, hok⟩ := hinv.ps.objs o (List.mem_of_getElem? ho)
   rw [step_status_out cfg s ho] at hw
@@ -283,13 +293,13 @@ theorem C02_status_terminated_sound (b0 : Nat) (hb0 : BtOK cfg.createNoneTest b0
 
 /-- **C02_status_listed.** After any history, while the object's own incarnation is in the table `str(p)`
     shows that incarnation's state (zombie or not) — never "terminated". -/
-theorem C02_status_listed (b0 : Nat) (hb0 : BtOK cfg.createNoneTest b0) (h : List Ev) (hh : HistOK cfg.createNoneTest h) (i : Nat) (o : PObj)
+theorem C02_status_listed (b0 : Nat) (h : List Ev) (hh : HistOK true h) (i : Nat) (o : PObj)
     (ho : (run cfg (St.init b0) h).ps.objs[i]? = some o)
     (hl : Listed (run cfg (St.init b0) h).kern o) :
     ∃ x, (run cfg (St.init b0) h).kern.find o.pid = some x ∧ x.start = o.ghost
       ∧ ownZombie (run cfg (St.init b0) h).kern o = some x.zombie
       ∧ (step cfg (run cfg (St.init b0) h) (.c (.status i))).2 = .status (if x.zombie then .zombie else .alive) := by
-  have hinv := run_inv cfg_good h _ hh (init_inv cfg.clk hb0)
+  have hinv := run_inv cfg_good h _ (HistOK.of_none_test cfg_none_test hh) (init_inv cfg.clk (BtOK.of_none_test cfg_none_test b0))
   generalize run cfg (St.init b0) h = s at *
   obtain ⟨B, _, hok⟩ := hinv.ps.objs o (List.mem_of_getElem? ho)
   obtain ⟨x, hf, hs, hw⟩ := (statusWord_spec hinv.kern hok).2 hl
@@ -341,8 +351,7 @@ def witnessIterReuse : List Ev :=
   [.k (.spawn 8), .c (.newObj 8), .k (.reap 8), .k (.spawn 8), .c .processIter, .c (.isRunning 0),
    .c .processIter, .c .processIter]
 
-example : HistOK cfg.createNoneTest witnessL2 ∧ HistOK cfg.createNoneTest witnessMixed
-    ∧ HistOK cfg.createNoneTest witnessIterReuse := by decide
+example : HistOK true witnessL2 ∧ HistOK true witnessMixed ∧ HistOK true witnessIterReuse := by decide
 
 /-- along `witnessIterReuse`: the first sweep yields the new handle (8, 1), the second sweep yields nothing
     (entry evicted, PID skipped), the third yields a third handle (8, 2); handle 1 — evicted from the cache
@@ -393,7 +402,8 @@ def IsRunningIffListed_Full (c : Cfg) : Prop :=
 /-- the two full statements hold for the configuration extracted from the source (they are the theorems
     `C02_eq_iff_same_incarnation` / `C02_isRunning_iff_listed`; refuted below for the pre-fix `boot_time()`) -/
 theorem C02_full_statements : EqIffSame_Full cfg ∧ IsRunningIffListed_Full cfg :=
-  ⟨C02_eq_iff_same_incarnation, C02_isRunning_iff_listed⟩
+  ⟨fun b0 _ h hh => C02_eq_iff_same_incarnation b0 h (cfg_none_test ▸ hh),
+   fun b0 _ h hh => C02_isRunning_iff_listed b0 h (cfg_none_test ▸ hh)⟩
 
 /-- **Lead L2 (proved).** With a `boot_time()` that rewrites BOOT_TIME, after `witnessL2` the two objects of
     the same live process compare unequal, and `is_running()` of the first one is False. -/
@@ -411,16 +421,19 @@ theorem C02_bootrewrite_counterexample :
     have := H 1000 (by decide) witnessL2 (by decide) 0 _ h0
     revert this; decide
 
-/-! ## A published boot time of 0 (RTC-less board before NTP steps the clock) — finding `C02-boottime-zero`
+/-! ## A published boot time of 0 (RTC-less board before NTP steps the clock) — former finding `C02-boottime-zero`
 
 Clock steps are INSIDE C02's quantifier, and a clock step is exactly what happens on a machine that boots with
-`btime 0` (no RTC: the epoch) and is then set by NTP.  `create_time()` as found computes `BOOT_TIME or boot_time()`: a
-cached `0.0` is falsy, so `boot_time()` is asked again on every call, and — `boot_time()` writing `BOOT_TIME` only while
-it is `None` — the cached 0.0 is never replaced: from then on every new identity follows the LIVE boot time.  The
-theorems above therefore carry `BtOK cfg.createNoneTest b` ("never 0", void once `create_time()` tests `BOOT_TIME is
-not None`: fixes/C02-boottime-zero.diff).  Below: the statements WITHOUT any hypothesis on the boot time
-(`HistOK true` allows every clock step), their refutation for the truthiness test, their proof for the `is not None`
-test, and `C02_btime0_as_extracted`, which says which of the two the source checked in this run is. -/
+`btime 0` (no RTC: the epoch) and is then set by NTP.  Up to /repo 29257b1 `create_time()` computed
+`BOOT_TIME or boot_time()`: a cached `0.0` is falsy, so `boot_time()` was asked again on every call, and — `boot_time()`
+writing `BOOT_TIME` only while it is `None` — the cached 0.0 was never replaced: every later identity followed the LIVE
+boot time, and C02 was false (`C02_btime0_counterexample`, replayed on the real code: `spawn 8; Process(8); btime 0→5;
+Process(8)` gave an object != the first, and `is_running()` of the first was False).  Since 29257b1 the test is
+`BOOT_TIME is not None` (obligation `cfg_none_test`), and every theorem of this file is stated WITHOUT any hypothesis on
+the boot time: `b0` is any number, `HistOK true` allows every clock step.  Below: the same statements as `def`s for an
+arbitrary configuration, their proof for ANY configuration with the `is not None` test, `C02_any_boot_full` (the code
+as it is), `C02_btime0_as_extracted` (which of the two cases the checked source is), and — as a WHAT-IF theorem about
+the unrepaired configuration `cfgTruthy`, not about the checked source — the refutation. -/
 
 def EqIffSame_AnyBoot_Full (c : Cfg) : Prop :=
   ∀ (b0 : Nat) (h : List Ev), HistOK true h → ∀ (i j : Nat) (a b : PObj),
@@ -439,9 +452,11 @@ def AnswersStable_AnyBoot_Full (c : Cfg) : Prop :=
     (step c (run c (run c (St.init b0) h) h2) (.c (.eq i j))).2 = (step c (run c (St.init b0) h) (.c (.eq i j))).2
     ∧ (step c (run c (run c (St.init b0) h) h2) (.c (.hash i))).2 = (step c (run c (St.init b0) h) (.c (.hash i))).2
 
-/-- the extracted configuration with `create_time()` testing truthiness: `BOOT_TIME or boot_time()` (psutil as found) -/
+/-- the extracted configuration with `create_time()` testing truthiness: `BOOT_TIME or boot_time()` (psutil before
+    /repo 29257b1 — a what-if configuration) -/
 def cfgTruthy : Cfg := { cfg with createNoneTest := false }
-/-- … testing `BOOT_TIME is not None` (fixes/C02-boottime-zero.diff) -/
+/-- … testing `BOOT_TIME is not None` (fixes/C02-boottime-zero.diff = /repo 29257b1: the checked source,
+    `C02_btime0_as_extracted`) -/
 def cfgNoneTest : Cfg := { cfg with createNoneTest := true }
 
 /-- a board that boots at the epoch: `Process(8)` captures `BOOT_TIME = 0.0`; NTP steps the clock (published btime 5);
@@ -450,7 +465,7 @@ def witnessBtime0 : List Ev := [.k (.spawn 8), .c (.newObj 8), .k (.setBtime 5),
 
 example : HistOK true witnessBtime0 := by decide
 
-/-- **C02_any_boot_full_of_none_test** (full strength for the repaired source).  For ANY configuration in which
+/-- **C02_any_boot_full_of_none_test** (full strength, generic).  For ANY configuration in which
     `BOOT_TIME` is written once and `create_time()` takes the cached value whenever it `is not None`, all clauses
     hold for ALL histories and ALL initial boot times — 0 included, no hypothesis on clock steps. -/
 theorem C02_any_boot_full_of_none_test (c : Cfg) (hc : c.BootGood) (hn : c.createNoneTest = true) :
@@ -463,14 +478,15 @@ theorem C02_any_boot_full_of_none_test (c : Cfg) (hc : c.BootGood) (hn : c.creat
   · intro b0 h hh i j a b ha hb h2 hh2
     exact answers_stable_gen hc b0 (Or.inl hn) h (hn ▸ hh) i j a b ha hb h2 (hn ▸ hh2)
 
-/-- the repaired configuration satisfies the obligations -/
+/-- the repaired configuration, built by hand from the extracted one, satisfies the obligations -/
 theorem cfgNoneTest_good : cfgNoneTest.BootGood ∧ cfgNoneTest.createNoneTest = true :=
   ⟨⟨cfg_good.once, cfg_good.cache⟩, rfl⟩
 
-/-- **C02_btime0_counterexample** (finding `C02-boottime-zero`, a defect against C02 as stated: the history consists
-    of a spawn, two `Process(pid)` and one clock step).  With the truthiness test, after `witnessBtime0` from a
-    published boot time of 0 the two objects of the same live process compare unequal and `is_running()` of the
-    first is False (it is flagged "PID reused"; with C01's guard its `terminate()` raises NoSuchProcess). -/
+/-- **C02_btime0_counterexample** (WHAT-IF: the unrepaired configuration `cfgTruthy` — the source before /repo 29257b1,
+    former finding `C02-boottime-zero`; NOT the checked source, see `C02_btime0_as_extracted`).  With the truthiness
+    test, after `witnessBtime0` from a published boot time of 0 the two objects of the same live process compare unequal
+    and `is_running()` of the first is False (it is flagged "PID reused"; with C01's guard its `terminate()` raises
+    NoSuchProcess).  This is what comes back if the test is reverted — and then `cfg_none_test` stops building. -/
 theorem C02_btime0_counterexample :
     ¬ EqIffSame_AnyBoot_Full cfgTruthy ∧ ¬ IsRunningIffListed_AnyBoot_Full cfgTruthy := by
   have h0 : (run cfgTruthy (St.init 0) witnessBtime0).ps.objs[0]? = some ⟨8, some 0, some 0, false, false, 0⟩ := by
@@ -485,29 +501,36 @@ theorem C02_btime0_counterexample :
     have := H 0 witnessBtime0 (by decide) 0 _ h0
     revert this; decide
 
-/-- **C02_btime0_as_extracted.** Which of the two the source checked in this run is: either `create_time()` tests
-    `BOOT_TIME is not None` and the hypothesis-free statements hold for the extracted configuration, or it tests
-    truthiness and they are false for it.  (While the repair is pending the second disjunct is the true one; once it
-    has landed, `cfg_none_test` below becomes an obligation.) -/
-theorem C02_btime0_as_extracted :
-    (cfg.createNoneTest = true ∧ EqIffSame_AnyBoot_Full cfg ∧ IsRunningIffListed_AnyBoot_Full cfg
-        ∧ AnswersStable_AnyBoot_Full cfg)
-    ∨ (cfg.createNoneTest = false ∧ ¬ EqIffSame_AnyBoot_Full cfg ∧ ¬ IsRunningIffListed_AnyBoot_Full cfg) := by
-  cases hn : cfg.createNoneTest with
-  | true => exact Or.inl ⟨rfl, C02_any_boot_full_of_none_test cfg cfg_good hn⟩
-  | false =>
-    have hc : cfgTruthy = cfg := by
-      have : cfg = { cfg with createNoneTest := cfg.createNoneTest } := rfl
-      rw [this, hn]; rfl
-    exact Or.inr ⟨rfl, hc ▸ C02_btime0_counterexample.1, hc ▸ C02_btime0_counterexample.2⟩
-
-/- TO BE SWITCHED ON BY THE INTEGRATOR once fixes/C02-boottime-zero.diff has landed in /repo (then the fact `createBoot`
-   is "isNotNone"; before that the first line does not build):
-
-theorem cfg_none_test : cfg.createNoneTest = true := by decide
-theorem C02_any_boot_full : EqIffSame_AnyBoot_Full cfg ∧ IsRunningIffListed_AnyBoot_Full cfg ∧ AnswersStable_AnyBoot_Full cfg :=
+/-- **C02_any_boot_full** (the code as it is).  For the configuration extracted from the checked source all clauses
+    hold for ALL histories and ALL initial boot times — 0 included, no hypothesis on clock steps.  (These are the
+    statements of `C02_eq_iff_same_incarnation`, `C02_isRunning_iff_listed`, `C02_answers_stable` in one place.) -/
+theorem C02_any_boot_full :
+    EqIffSame_AnyBoot_Full cfg ∧ IsRunningIffListed_AnyBoot_Full cfg ∧ AnswersStable_AnyBoot_Full cfg :=
   C02_any_boot_full_of_none_test cfg cfg_good cfg_none_test
--/
+
+/-- **C02_btime0_as_extracted.** Which case the checked source is: the REPAIRED one.  The extracted configuration tests
+    `BOOT_TIME is not None`; it IS `cfgNoneTest` and is NOT `cfgTruthy` (the configuration `C02_btime0_counterexample`
+    refutes); and the hypothesis-free statements hold for it. -/
+theorem C02_btime0_as_extracted :
+    cfg.createNoneTest = true ∧ cfg = cfgNoneTest ∧ cfg ≠ cfgTruthy
+    ∧ EqIffSame_AnyBoot_Full cfg ∧ IsRunningIffListed_AnyBoot_Full cfg ∧ AnswersStable_AnyBoot_Full cfg := by
+  refine ⟨cfg_none_test, ?_, ?_, C02_any_boot_full⟩
+  · have h : cfg = { cfg with createNoneTest := cfg.createNoneTest } := rfl
+    rw [cfg_none_test] at h
+    exact h
+  · intro h
+    have h2 : cfg.createNoneTest = cfgTruthy.createNoneTest := congrArg Cfg.createNoneTest h
+    rw [cfg_none_test] at h2
+    exact absurd h2 (by decide)
+
+/-- with the extracted configuration, along `witnessBtime0` from a published boot time of 0: the two objects of the same
+    live process are equal, hash alike, and both are running (the very answers `cfgTruthy` gets wrong) -/
+example :
+    (step cfg (run cfg (St.init 0) witnessBtime0) (.c (.eq 0 1))).2 = .bool true
+    ∧ (step cfg (run cfg (St.init 0) witnessBtime0) (.c (.hash 0))).2
+        = (step cfg (run cfg (St.init 0) witnessBtime0) (.c (.hash 1))).2
+    ∧ (step cfg (run cfg (St.init 0) witnessBtime0) (.c (.isRunning 0))).2 = .bool true
+    ∧ (step cfg (run cfg (St.init 0) witnessBtime0) (.c (.isRunning 1))).2 = .bool true := by decide
 
 /-! ## `(pid, None)` identities — CHARACTERISATION outside the property's quantifier
 
@@ -563,8 +586,9 @@ theorem C02_isRunning_unknown_start (s : St) (i : Nat) (o : PObj) (ho : s.ps.obj
     | true => simp [hn]
     | false => simp [hn]
 
-/-! `HistOKb` (Proofs/C01Hid.lean): histories that may hide `/proc/pid/stat` — only "the published boot time is
-never 0" is asked. -/
+/-! `HistOKb` (Proofs/C01Hid.lean): histories that may hide `/proc/pid/stat` — only "no PID recycled within one clock
+tick" is asked (and, for a configuration with the truthiness test, "the published boot time is never 0": void for the
+checked source, `cfg_none_test`). -/
 
 def EqIffSame_AnyReadability_Full (c : Cfg) : Prop :=
   ∀ (b0 : Nat), BtOK c.createNoneTest b0 → ∀ (h : List Ev), HistOKb c.createNoneTest h → ∀ (i j : Nat) (a b : PObj),
